@@ -18,14 +18,15 @@
    tear-down (LEnvCloseSend, the transport's EOF after Send returned, is allowed).
    Proved below: the request set and the completed set of ANY two reachable states in which
    Receive returned nil are equal, and equal to [need_ids p] (a sequential function of the
-   parameters) — for all interleavings and even in the presence of faults.  Not proved:
+   parameters) — for all interleavings and even in the presence of faults; no file is ever
+   requested twice, so the request sequence is a permutation of [need_ids p].  Not proved:
    (1) equality of the per-file chunk counts [written] (the content part of the destination;
    false in the presence of an Open error, known finding open-error-empty-file-success, hence
    it needs the fault-free hypothesis and a per-file invariant relating the worker's chunk
    counter to the packets in flight), (2) that a complete fault-free run always returns nil on
    both sides (no spurious "invalid file id" / "invalid file request"), which is what lets
    the hypothesis "Receive returned nil" be dropped. *)
-From Coq Require Import List Arith Bool PeanoNat.
+From Coq Require Import List Arith Bool PeanoNat Permutation.
 From FS Require Import Model.Lts Model.LtsExplore Proofs.LtsInv Proofs.LtsSafe Proofs.LtsC08.
 Import ListNotations.
 
@@ -77,11 +78,23 @@ Theorem outcome_deterministic_partial : forall p st1 st2,
   (forall id, memb id (reqs st1) = memb id (reqs st2)).
 Proof. exact outcome_deterministic_partial_proof. Qed.
 
+(* No file is requested twice, in any reachable state ... *)
+Theorem requested_at_most_once : forall p st, reachable p st -> NoDup (reqs st).
+Proof. exact reqs_nodup_proof. Qed.
+
+(* ... so when Receive has returned nil the sequence of requests is a permutation of need_ids p:
+   only the order of the requests depends on the schedule. *)
+Theorem success_requests_permutation : forall p st, reachable p st -> recv_ret st = Some true ->
+  Permutation (reqs st) (need_ids p).
+Proof. exact success_requests_permutation_proof. Qed.
+
 Print Assumptions send_mutex_inv.
 Print Assumptions single_recv.
 Print Assumptions payload_consumed_before_reuse.
 Print Assumptions success_outcome_is_sequential.
 Print Assumptions outcome_deterministic_partial.
+Print Assumptions requested_at_most_once.
+Print Assumptions success_requests_permutation.
 
 (* ---- non-vacuity ---- *)
 Definition c08_file (c : nat) : entry := {| e_file := true; e_chunks := c; e_kind := ENeed |}.
